@@ -60,17 +60,23 @@ fn fnv_u32s(d: &[u32]) -> u64 {
 fn plan_brief(plan: &Plan) -> J {
     J::obj()
         .set("run_index", J::u(plan.run_index))
-        .set("dim", J::u(plan.case.dim as u64))
-        .set("periodic", J::Bool(plan.case.periodic))
-        .set("n", J::u(plan.case.n() as u64))
-        .set("family", J::s(&plan.case.family))
+        .set("dim", J::u(plan.cases[0].dim as u64))
+        .set("periodic", J::Bool(plan.cases[0].periodic))
+        .set("n", J::u(plan.cases[0].n() as u64))
+        .set("family", J::s(&plan.cases[0].family))
         .set("pool_sizes", J::arr(plan.pool_sizes.iter().map(|p| J::u(*p as u64))))
+        .set("inputs", J::arr(plan.cases.iter().map(|c| J::s(&format!("{} n={}", c.family, c.n())))))
         .set(
             "history",
             J::arr(plan.history.iter().map(|h| {
                 J::s(&format!(
-                    "{}@pool{}:{}/{}{}",
+                    "{}(input{}){}@pool{}:{}/{}{}",
                     h.op.name(),
+                    h.case,
+                    match h.with {
+                        Some((o, c)) => format!(" || {}(input{})", o.name(), c),
+                        None => String::new(),
+                    },
                     h.pool,
                     split_name(h.split),
                     sched_name(h.sched),
@@ -110,6 +116,11 @@ pub fn cmd_e1(args: &Args) -> i32 {
     let mut dims: BTreeMap<String, u64> = BTreeMap::new();
     let mut leaves_hist: BTreeMap<u64, u64> = BTreeMap::new();
     let mut samples: Vec<J> = vec![];
+    let mut pristine_checks = 0u64;
+    let mut runs_with_variants = 0u64;
+    let mut input_changes = 0u64;
+    let mut concurrent_ops = 0u64;
+    let mut variant_kinds: BTreeMap<String, u64> = BTreeMap::new();
     let mut last = start;
     let mut code = 0;
     let mut violation_json = J::Null;
@@ -131,12 +142,29 @@ pub fn cmd_e1(args: &Args) -> i32 {
         runs += 1;
         total.add(&r.stats);
         ops_run += plan.history.len() as u64;
-        for o in &r.outcomes {
-            match o {
-                vcore::Outcome::Ok(d) => values_compared += d.values(),
-                vcore::Outcome::Panic(_) => panics_both += 1,
+        for (o, o2) in &r.outcomes {
+            for o in std::iter::once(o).chain(o2.iter()) {
+                match o {
+                    vcore::Outcome::Ok(d) => values_compared += d.values(),
+                    vcore::Outcome::Panic(_) => panics_both += 1,
+                }
             }
         }
+        pristine_checks += r.pristine_checked;
+        if plan.cases.len() > 1 {
+            runs_with_variants += 1;
+            let mut prev: Option<usize> = None;
+            for h in &plan.history {
+                if prev.map_or(false, |p| p != h.case) {
+                    input_changes += 1;
+                }
+                prev = Some(h.case);
+            }
+            for c in &plan.cases[1..] {
+                *variant_kinds.entry(c.family.rsplit('+').next().unwrap_or("?").to_string()).or_insert(0) += 1;
+            }
+        }
+        concurrent_ops += plan.history.iter().filter(|h| h.with.is_some()).count() as u64;
         let mut nontrivial = false;
         for (h, (ih, sh, leaves)) in plan.history.iter().zip(r.op_hashes.iter().chain(std::iter::repeat(&(0, 0, 0)))) {
             let _ = h;
@@ -163,9 +191,9 @@ pub fn cmd_e1(args: &Args) -> i32 {
             *pools.entry(plan.pool_sizes[h.pool]).or_insert(0) += 1;
             *opkinds.entry(h.op.name().to_string()).or_insert(0) += 1;
         }
-        *families.entry(plan.case.family.clone()).or_insert(0) += 1;
+        *families.entry(plan.cases[0].family.clone()).or_insert(0) += 1;
         *dims
-            .entry(format!("{}d{}", plan.case.dim, if plan.case.periodic { "p" } else { "" }))
+            .entry(format!("{}d{}", plan.cases[0].dim, if plan.cases[0].periodic { "p" } else { "" }))
             .or_insert(0) += 1;
         if samples.len() < 3 {
             samples.push(plan_brief(&plan).set(
@@ -173,7 +201,7 @@ pub fn cmd_e1(args: &Args) -> i32 {
                 J::s(&format!("{:016x}", fnv_u32s(&r.decisions))),
             ).set("decisions_len", J::u(r.decisions.len() as u64)).set(
                 "outcomes",
-                J::arr(r.outcomes.iter().map(|o| J::s(&o.short()))),
+                J::arr(r.outcomes.iter().map(|o| J::s(&o.0.short()))),
             ));
         }
 
@@ -209,7 +237,7 @@ pub fn cmd_e1(args: &Args) -> i32 {
                 .set("replay_min", J::s(&min_path))
                 .set("replay_full", J::s(&full_path))
                 .set("replay_batch", J::s(&batch_path))
-                .set("min_generators", J::u(m.plan.case.n() as u64))
+                .set("min_generators", J::u(m.plan.cases[0].n() as u64))
                 .set("min_ops", J::u(m.plan.history.len() as u64));
             println!(
                 "E1-VIOLATION property=C09 run={} op={} component={} class={} replay_min={} replay_full={} replay_batch={}",
@@ -233,6 +261,11 @@ pub fn cmd_e1(args: &Args) -> i32 {
         .set("ops", J::u(ops_run))
         .set("values_compared", J::u(values_compared))
         .set("panics_both_sides", J::u(panics_both))
+        .set("pristine_reference_checks", J::u(pristine_checks))
+        .set("runs_with_input_variants", J::u(runs_with_variants))
+        .set("input_changes_between_ops", J::u(input_changes))
+        .set("concurrent_op_pairs", J::u(concurrent_ops))
+        .set("variant_kinds", J::Obj(variant_kinds.into_iter().map(|(k, v)| (k, J::u(v))).collect()))
         .set("wall_s", J::Num(wall))
         .set("stats", stats_json(&total))
         .set("distinct_interleavings", J::u(hashes.len() as u64))
@@ -271,11 +304,18 @@ pub fn cmd_trace(args: &Args) -> i32 {
         let plan = plan_run(seed, idx, &lim);
         let (r, v) = run_plan(&plan, None, args.u64("watchdog", 20), false);
         let oh: Vec<String> = r.op_hashes.iter().map(|(a, b, c)| format!("{:x}.{:x}.{}", a, b, c)).collect();
-        let oc: Vec<String> = r.outcomes.iter().map(|o| o.short()).collect();
+        let oc: Vec<String> = r
+            .outcomes
+            .iter()
+            .map(|o| match &o.1 {
+                Some(b) => format!("{}|{}", o.0.short(), b.short()),
+                None => o.0.short(),
+            })
+            .collect();
         println!(
             "run={} n={} dec={:016x}/{} steps={} switches={} ops=[{}] out=[{}] viol={}",
             idx,
-            plan.case.n(),
+            plan.cases[0].n(),
             fnv_u32s(&r.decisions),
             r.decisions.len(),
             r.stats.scheduler_steps,
